@@ -17,7 +17,7 @@ import re
 
 import common
 
-OPS = "NKCVWAOTUG"
+OPS = "NKCVWAOTUGE"   # E = program.entrypoint = node|None (Typegraph/Entry.v: erased before the model run, by theorem pe_run_core)
 MODEL_MAX_VAR_SIZE = 64        # coq/Typegraph/Prune.v MAX_VAR_SIZE
 
 
@@ -124,6 +124,13 @@ class Impl:
       self.vars[o[1]].PasteVariable(self.vars[o[2]], self.node(o[3]))
     elif t == "G":
       self.vars.append(self.vars[o[1]].AssignToNewVariable(self.node(o[2])))
+    elif t == "E":
+      # Program state outside the graph (Entry.v): written here, read back at once (entrypoint_last_write) and
+      # irrelevant to every later answer (entrypoint_irrelevant) - the model run simply omits the op
+      p.entrypoint = self.node(o[1])
+      back = p.entrypoint
+      if (back is None) != (o[1] is None) or (back is not None and back.id != self.nodes[o[1]].id):
+        self.op_bad = "program.entrypoint reads back %r after writing node %r" % (getattr(back, "id", None), o[1])
     elif t in ("B", "L"):
       self.out.append(",".join(str(b.id) for b in self.vars[o[1]].Bindings(self.node(o[2]))))
     elif t == "D":
@@ -307,7 +314,12 @@ class Gen:
 def gen_random(r, n_steps, max_nodes, max_vars, n_data, q=True):
   g = Gen(r)
   g.emit("N")
+  p_entry = r.choice([0.0, 0.03, 0.08])
+  if r.random() < 0.5:
+    g.emit("E", 0)                                # pytype sets the root node as entrypoint right away
   for _ in range(n_steps):
+    if r.random() < p_entry:
+      g.emit("E", g.node_opt(0.2))
     k = r.random()
     if g.nn < max_nodes and k < 0.22:
       if r.random() < 0.6:
@@ -351,6 +363,8 @@ def gen_structured(r, n_blocks):
   the way: the classical reaching-definitions situation.  Variables are created first."""
   g = Gen(r)
   g.emit("N")
+  if r.random() < 0.6:
+    g.emit("E", 0)
   nv = r.randint(1, 3)
   for _ in range(nv):
     g.emit("V")
@@ -415,6 +429,44 @@ def gen_single(r, n_nodes, n_origins):
     a, b = g.node(), g.node()
     g.emit("C", a, b)
     g.ops.append(("R", a, b)); g.ops.append(("R", b, a))
+  return g.ops
+
+
+def gen_entry(r, n_nodes):
+  """Cycles through the entrypoint: a node is made the entrypoint (before or after the edges exist, possibly moved
+  and reset in between) and edge paths lead back into it; is_reachable is asked for (x, entrypoint) pairs, the full
+  matrix while small, and Bindings at the entrypoint for a variable bound inside the cycle."""
+  g = Gen(r)
+  g.emit("N")
+  e = 0
+  early = r.random() < 0.5
+  if early:
+    g.emit("E", 0)
+  while g.nn < n_nodes:
+    g.emit("K", g.nn - 1 if r.random() < 0.7 else g.node())
+  if not early or r.random() < 0.5:
+    e = g.node() if r.random() < 0.5 else 0
+    if r.random() < 0.3:
+      g.emit("E", None)
+    g.emit("E", e)
+  g.emit("V")
+  g.emit("A", 0, 1, g.node())
+  for _ in range(r.randint(1, 3)):
+    src = g.node()
+    g.emit("C", src, e)                           # a back edge into the entrypoint
+    for x in {src, g.node(), g.node(), g.nn - 1}:
+      g.ops.append(("R", x, e)); g.ops.append(("R", e, x))
+    g.ops.append(("B", 0, e)); g.ops.append(("L", 0, e))
+    if g.nn <= 12:
+      g.ops.append(("M",))
+    if r.random() < 0.4:
+      g.emit("A", 0, r.randrange(1, 4), g.node())
+    if r.random() < 0.3:
+      e2 = g.node()
+      g.emit("E", e2)
+      g.ops.append(("R", e, e2)); g.ops.append(("R", g.node(), e2))
+      e = e2
+  g.queries()
   return g.ops
 
 
